@@ -22,6 +22,12 @@ type unsafePtr struct {
 }
 
 func (i *interpreter) binop(op token.Token, t types.Type, x, y value) value {
+	if _, ok := x.(symFloat); ok {
+		panic(unsupported("floating-point operation on a symbolic float"))
+	}
+	if _, ok := y.(symFloat); ok {
+		panic(unsupported("floating-point operation on a symbolic float"))
+	}
 	if px, ok := x.(ptrInt); ok {
 		if op == token.ADD || op == token.SUB {
 			d := asInt64(y)
@@ -247,6 +253,12 @@ func (i *interpreter) store(T types.Type, addr value, v value) {
 func (i *interpreter) conv(tDst, tSrc types.Type, x value) value {
 	utSrc := tSrc.Underlying()
 	utDst := tDst.Underlying()
+	if _, ok := x.(symFloat); ok {
+		if types.Identical(utSrc, utDst) {
+			return x
+		}
+		panic(unsupported("conversion of a symbolic float"))
+	}
 	if s, ok := x.(sym); ok {
 		if b, ok := utDst.(*types.Basic); ok {
 			if b.Kind() == types.String {
@@ -733,6 +745,14 @@ func (i *interpreter) checkSizeAgainstLimit(n value, where string) {
 	}
 	ok, m := i.feasible(over)
 	if ok {
+		// prefer a witness the native allocation oracle can see (it tolerates
+		// 256 KiB of ordinary small objects) and a machine can afford
+		if tn.w == 64 {
+			big := i.tc.And(i.tc.Cmp("bvult", i.tc.Const(64, uint64(asInt64(i.allocLimit))+(1<<20)), tn), i.tc.Cmp("bvult", tn, i.tc.Const(64, 1<<28)))
+			if ok2, m2 := i.feasible(big); ok2 {
+				m = m2
+			}
+		}
 		i.reportViolation("alloc", i.allocLabel, m)
 		i.violations[len(i.violations)-1].Where = where
 		// continue on the in-limit side
